@@ -318,7 +318,7 @@ class Interp:
             return True
         if isinstance(v, Ext) and v.maybe_none:
             return self.decide(("isnone", ("ext", v.uid), v.path), node)
-        if isinstance(v, Sym) and v.kind in ("obj", "any", "str") and v.tag != "nonnull":
+        if isinstance(v, Sym) and v.kind in ("obj", "any", "str") and v.tag is None:
             return self.decide(("isnone", v.key()), node)
         return False
 
@@ -721,6 +721,11 @@ class Interp:
         if isinstance(it, (tuple, list)):
             return "known", list(it)
         if isinstance(it, (ListV, SetV)):
+            stars = [x for x in it.items if isinstance(x, tuple) and len(x) == 2 and x[0] == "*" and not isinstance(x[1], (str, int))]
+            if stars:
+                if len(it.items) == 1:
+                    return self.iterate(stars[0][1], node)  # a list filled only by extend(<unknown iterable>)
+                self.unsupported("iteration over a list mixing known items and an unknown extension", node)
             return "known", list(it.items)
         if isinstance(it, frozenset):
             return "known", sorted(it, key=repr)
@@ -1077,7 +1082,7 @@ class Interp:
                 return True
             if isinstance(other, Ext) and other.maybe_none:
                 return Cond(("isnone", ("ext", other.uid), other.path))
-            if isinstance(other, Sym) and other.kind in ("obj", "any") and other.tag != "nonnull":
+            if isinstance(other, Sym) and other.kind in ("obj", "any", "str") and other.tag is None:
                 return Cond(("isnone", other.key()))
             return False
         if isinstance(a, (bool, str, int)) and isinstance(b, (bool, str, int)):
